@@ -71,19 +71,27 @@ example : Gen.UDIV_NEEDS_NORMALIZATION = 0 := rfl
     (otherwise ~xl ≥ xl and divq faults). -/
 def invert_limb (xl : Nat) : Nat := (udiv_qrnnd (B - 1 - xl) (B - 1) xl).1
 
+/-- udiv_qrnnd_preinv1, gmp-impl.h:2916-2925: `if (_xh != 0) { sub_ddmmss (_xh, _r, _xh, _r, 0, d); _q += 1;
+    if (_xh != 0) { _r -= d; _q += 1; } }`.  Returns (q, r). -/
+def preinv1Adj1 (q xh r d : Nat) : Nat × Nat :=
+  if xh != 0 then
+    let s := sub_ddmmss xh r 0 d
+    let q := (q + 1) % B
+    if s.1 != 0 then ((q + 1) % B, (s.2 + B - d) % B) else (q, s.2)
+  else (q, r)
+
+/-- udiv_qrnnd_preinv1, gmp-impl.h:2926-2930: `if (_r >= d) { _r -= d; _q += 1; }`. -/
+def preinv1Adj2 (q r d : Nat) : Nat × Nat :=
+  if r ≥ d then ((q + 1) % B, (r + B - d) % B) else (q, r)
+
 /-- udiv_qrnnd_preinv1 (gmp-impl.h:2907-2933).  Returns (q, r). -/
 def udiv_qrnnd_preinv1 (nh nl d di : Nat) : Nat × Nat :=
-  let (q0, _ql) := umul_ppmm nh di
-  let q := (q0 + nh) % B
-  let (xh, xl) := umul_ppmm q d
-  let (xh, r) := sub_ddmmss nh nl xh xl
-  let (q, r) :=
-    if xh != 0 then
-      let (xh, r) := sub_ddmmss xh r 0 d
-      let q := (q + 1) % B
-      if xh != 0 then ((q + 1) % B, (r + B - d) % B) else (q, r)
-    else (q, r)
-  if r ≥ d then ((q + 1) % B, (r + B - d) % B) else (q, r)
+  let p := umul_ppmm nh di
+  let q := (p.1 + nh) % B            -- compensate, di is 2^64 too small
+  let x := umul_ppmm q d
+  let s := sub_ddmmss nh nl x.1 x.2
+  let t := preinv1Adj1 q s.1 s.2 d
+  preinv1Adj2 t.1 t.2 d
 
 /-- udiv_qrnnd_preinv2 (gmp-impl.h:2936-2952), branch-free.  Returns (q, r). -/
 def udiv_qrnnd_preinv2 (nh nl d di : Nat) : Nat × Nat :=
